@@ -45,6 +45,30 @@ PROPS = {
         "assumptions": COMMON_ASSUMPTIONS,
         "explanation": "session model locality theorems + sess/pipe correspondence",
     },
+    "C04": {
+        "level": "proof",
+        "lean_modules": ["AnyTLS.Props.C04"],
+        "groups": [{"group": "pad", "quick_cases": 1200, "thorough_cases": 30000},
+                   {"group": "sess", "quick_cases": 300, "thorough_cases": 5000}],
+        "rule": "pad case = real client Session on a recording writer; scheme from a generator over the whole accepted language (any stop, 0-6 entries per line, sizes {1..600, 1000, 8192, 65528..65543, 70000, 2^31-1, 2^31, 2^32-1, 2^63-1}, reversed ranges, check marks, missing lines, garbage parts, CRLF, duplicate keys, whitespace) "
+                "plus rejected schemes; 0-3 frames buffered into the first packet, then up to 12 packets with payload sizes around the drawn sizes (0..65535); draws injected from the case's PRNG; "
+                "non-trivial = accepted scheme and at least two packets, or a preamble case; distinct by SHA-1 of the op lines",
+        "level_text": "kernel-checked theorems for every accepted scheme, packet index, draw vector and payload: the bytes written are the payload followed only by padding frames that fit their length field (shape_payload_then_waste), the wire of any number of packets parses as the submitted frames plus padding frames with nothing left over (wire_parses, wire_parses_packets), every generated size is inside its range and within 1..65535 (sizes_sane), writes are bounded (writes_bounded). Tied to the code by the pad/sess differential runs with injected draws (exact write lengths and decoded frames) and by an independent reference frame parser over the recorded bytes",
+        "level_note": "trusted: Lean kernel, extract.py, harness+driver glue; scheme text is ASCII in the model (non-UTF-8 input goes through from_utf8_lossy in the code; covered by the harness only); the real RNG is replaced by injected draws through the verif::draw hook",
+        "assumptions": COMMON_ASSUMPTIONS,
+        "explanation": "padding model theorems + pad/sess correspondence + reference-parser oracle",
+    },
+    "C05": {
+        "level": "proof",
+        "lean_modules": ["AnyTLS.Props.C05"],
+        "groups": [{"group": "pad", "quick_cases": 1500, "thorough_cases": 40000}],
+        "rule": "as C04 (pad group) plus preamble cases (real send_authentication on a recording writer); the oracle is a Rust transcription of the statement's acceptor run over the recorded write lengths of every packet, with the scheme parsed by an independent parser; "
+                "non-trivial = accepted scheme and at least two packets, or a preamble case; distinct by SHA-1 of the op lines",
+        "level_text": "kernel-checked theorems: the write lengths of every packet below stop are accepted by the statement's acceptor `Allowed` for that line (shape_allowed, all schemes/payloads/draws), from stop onward / without a line / on the server exactly one unpadded write, the preamble carries exactly the first size of line 0 (preamble_exact), the j-th session packet is shaped by line j (packet_index + Gen obligations gen_first_packet_index, gen_client_pads, gen_server_never_pads regenerated from the source). Tied to the code by the pad differential run and the acceptor oracle on the implementation's own writes. The concurrent-writers clause rests on C11 (wire order = acceptance order under the send-buffer lock)",
+        "level_note": "trusted: Lean kernel, extract.py, harness+driver glue; a gap of at most 7 bytes between payload and drawn size cannot be filled by a padding frame (forced by the frame format; explicit in `Allowed.completed_nopad`)",
+        "assumptions": COMMON_ASSUMPTIONS,
+        "explanation": "Allowed acceptor theorems + pad correspondence + acceptor oracle",
+    },
 }
 
 NOT_YET = {}
